@@ -23,7 +23,10 @@ RULE = ('8 helpers (route/resource/static/current_route x url/path) on generated
         'routes whose pattern is a full URL (scheme / userinfo / port in the pattern), the function forms of pyramid.url, '
         'values that are neither str, bytes nor int (None, non-integral floats, str-subclass instances, objects with __str__), '
         'one-shot iterators as query / sequence value / star value, empty _host; current_route_url is also compared with '
-        'route_url(<current route>, **{**matchdict, **keywords}) on the implementation; '
+        'route_url(<current route>, **{**matchdict, **keywords}) on the implementation; every URL with extra elements is compared '
+        'with the same call without them (no segment nobody supplied) and the route part of the path, decoded as a whole, with the '
+        'pattern filled with the supplied values; registrations made after URLs were generated on the half-built configuration; '
+        'sadd stream: the registrations a sequence of add_static_view statements leaves behind vs the Coq model of StaticURLInfo.add; '
         'plus urllib.parse decoder, urljoin and quote streams. non-trivial = a URL was '
         'produced AND (some supplied element/query/anchor/script character needs quoting OR an override is present OR the '
         'route has a placeholder); distinct by full case')
@@ -404,7 +407,12 @@ def gen_kwval(rng, star=False):
         r = rng.random()
         if r < 0.6:
             return ['q', [gen_pval(rng, 0.05) for _ in range(rng.choice([0, 1, 2, 3]))], rng.choice(['list', 'tuple', 'iter', 'gen'])]
-        return ['v', ['s', rng.choice(['a/b', '/a/b c', '', 'x%y/\xe9'])]] if r < 0.9 else ['v', gen_pval(rng)]
+        if r < 0.75:
+            return ['v', ['s', rng.choice(['a/b', '/a/b c', '', 'x%y/\xe9'])]]
+        if r < 0.9:      # a scalar star value that is not a str: bytes (UTF-8 text, never a sequence of integers), int, other
+            return ['v', rng.choice([['b', list('docs/caf\xe9.txt'.encode('utf-8'))], ['b', list(b'a/b')], ['b', []], ['i', 42],
+                                     ['x', 'ssub', 'a/b c'], ['x', 'float', '1.5']])]
+        return ['v', gen_pval(rng)]
     if rng.random() < 0.04:
         return ['q', [gen_pval(rng, 0.0) for _ in range(rng.choice([0, 1, 2]))], rng.choice(['list', 'tuple'])]
     return ['v', gen_pval(rng, 0.05)]
@@ -435,6 +443,9 @@ def gen_kw_for(rng, pattern):
 
 
 def gen_elements(rng):
+    if rng.random() < 0.04:
+        # empty elements: one, several, in front of / behind a non-empty one (an empty element is a segment too)
+        return rng.choice([[['s', '']], [['s', '']], [['b', []]], [['s', ''], ['s', '']], [['s', ''], ['s', 'x']], [['s', 'x'], ['s', '']]])
     return [gen_pval(rng) for _ in range(rng.choice([0, 0, 1, 1, 2, 3]))]
 
 
@@ -574,9 +585,13 @@ def add_history(rng, c):
 
 
 def maybe_via_function(rng, c):
-    """call the function forms of pyramid.url (route_url(route_name, request, ..), ..) instead of the request methods"""
+    """call the function forms of pyramid.url (route_url(route_name, request, ..), ..) instead of the request methods;
+    or: some registrations are made AFTER URLs were generated on the half-built configuration"""
     if rng.random() < 0.12:
         c['via'] = 'function'
+    n = len(c.get('routes') or []) + len(c.get('statics') or [])
+    if n and rng.random() < 0.06:
+        c['late'] = rng.choice(list(range(1, n + 1)))
     return c
 
 
@@ -667,6 +682,37 @@ def gen_quote_case(rng, i=None):
                       for _ in range(rng.choice([0, 1, 2, 3, 5, 8]))]}
 
 
+SADD_NAMES = ['static', 'my static', 'a/b', 'st\xe9', 'css%', 'static/', 'x'] + EXT_NAMES + ['https://cdn.example.com/assets', '//h']
+SADD_SPECS = ['pkg:static', 'pkg:assets/css', 'other:files', 'pkg:st', 'pkg:', 'pkg:dir/', 'pkg:static/v', 'cdn:static']
+
+
+def gen_sadd_case(rng):
+    """configuration time: which registrations a sequence of add_static_view statements leaves behind (URL names may
+    repeat: the earlier registration under that URL is replaced and the new one goes last)"""
+    n = rng.choice([1, 2, 2, 3, 4])
+    stmts, views = [], set()
+    for _ in range(n):
+        nm = rng.choice(SADD_NAMES)
+        if _sadd_is_url(nm) == 0:
+            key = nm if nm.endswith('/') else nm + '/'
+            if key in views:
+                continue                      # the same view name twice is a route registered twice: not modelled
+            views.add(key)
+        stmts.append([nm, rng.choice(SADD_SPECS)])
+    urls = [st for st in stmts if _sadd_is_url(st[0])]
+    if urls and rng.random() < 0.4:
+        # the same URL again (with and without its trailing slash), for another spec
+        nm = rng.choice(urls)[0]
+        stmts.insert(rng.randrange(len(stmts) + 1), [nm.rstrip('/') if rng.random() < 0.5 and not nm.endswith('//') else nm,
+                                                     rng.choice(SADD_SPECS)])
+    return {'kind': 'sadd', 'stmts': stmts or [['static', 'pkg:static']]}
+
+
+def _sadd_is_url(name):
+    from urllib.parse import urlparse
+    return 1 if urlparse(name if name.endswith('/') else name + '/').netloc else 0
+
+
 def typed_stream_on():
     if TYPED_KEY_STREAM is not None:
         return TYPED_KEY_STREAM
@@ -696,6 +742,8 @@ def generate(rng, tier, n):
             yield gen_call_history_case(rng)
         elif r < 0.83:
             yield (gen_typed_case(rng) if rng.random() < 0.5 else gen_typed_query_case(rng)) if typed else gen_route_case(rng)
+        elif r < 0.845:
+            yield gen_sadd_case(rng)
         elif r < 0.92:
             yield gen_dec_case(rng)
         elif r < 0.95:
@@ -731,6 +779,31 @@ def targeted(broken, disagreements, rng):
                 c = gen_route_case(rng)
                 c['ov'].update(scheme=s, host=h, port=p, app_url=None)
                 out.append(c)
+    # a single empty element / empty elements around a non-empty one, for every helper; star values of every type
+    for els in ([['s', '']], [['b', []]], [['s', ''], ['s', '']], [['s', ''], ['s', 'x']], [['s', 'x'], ['s', '']]):
+        for g in (gen_route_case, gen_resource_case, gen_current_case):
+            for _ in range(6):
+                c = g(rng)
+                c['elements'] = json.loads(json.dumps(els))
+                c['ov']['app_url'] = None
+                out.append(c)
+    for sv in (['v', ['b', list('docs/caf\xe9.txt'.encode('utf-8'))]], ['v', ['b', list(b'a')]], ['v', ['i', 7]], ['v', ['s', 'a/b']],
+               ['q', [['b', list(b'a')], ['s', 'b c']], 'tuple'], ['q', [['i', 1]], 'gen']):
+        for pat in ('/files/{x}/*subpath', '/*traverse', '/f*rest'):
+            c = gen_route_case(rng)
+            star = pat.rsplit('*', 1)[1]
+            c['routes'], c['route_name'] = [['r', pat]], 'r'
+            c['kw'] = [['x', ['v', ['s', 'z']]], [star, json.loads(json.dumps(sv))]]
+            out.append(c)
+            c2 = gen_current_case(rng)
+            c2.update(routes=[['r', pat]], matched='r', cur_route_name=None, matchdict=[['x', ['v', ['s', 'z']]]],
+                      kw=[[star, json.loads(json.dumps(sv))]])
+            out.append(c2)
+    for _ in range(150):
+        c = rng.choice([gen_route_case, gen_current_case, gen_static_case])(rng)
+        n = len(c.get('routes') or []) + len(c.get('statics') or [])
+        c['late'] = rng.choice(list(range(1, n + 1)))
+        out.append(c)
     for _ in range(300):
         out.append(gen_typed_case(rng))
         out.append(gen_typed_query_case(rng))
@@ -859,6 +932,11 @@ def valid(case):
             return isinstance(case['url'], str) and _no_surrogate(case['url'])
         if k == 'join':
             return isinstance(case['base'], str) and isinstance(case['ref'], str) and _no_surrogate(case['base'] + case['ref'])
+        if k == 'sadd':
+            views = [n if n.endswith('/') else n + '/' for n, _s in case['stmts'] if _sadd_is_url(n) == 0]
+            return bool(case['stmts']) and all(isinstance(n, str) and isinstance(sp, str) and n and ':' in sp and sp[0] != '/'
+                                               and _no_surrogate(n + sp) and _static_name_ok(n) for n, sp in case['stmts']) \
+                and len(set(views)) == len(views)
         if k == 'quote':
             return isinstance(case['safe'], str) and all(ord(c) < 128 for c in case['safe']) and \
                 all(isinstance(b, int) and 0 <= b < 256 for b in case['bytes'])
@@ -881,6 +959,10 @@ def valid(case):
         if not all(_query_ok(q) and q is not None for q in case.get('warm_q', [])):
             return False
         if case.get('via', 'method') not in ('method', 'function'):
+            return False
+        lt = case.get('late', 0)
+        if not (isinstance(lt, int) and not isinstance(lt, bool)
+                and 0 <= lt <= len(case.get('routes') or []) + len(case.get('statics') or [])):
             return False
         for pc in case.get('pre_calls', []):
             if not isinstance(pc, dict) or not set(pc) <= {'ov', 'kw', 'elements'} or 'ov' not in pc:
@@ -1151,6 +1233,8 @@ def to_wire(case):
         return [2, case['safe'], bytes(case['bytes'])]
     if k == 'join':
         return [3, case['base'], case['ref']]
+    if k == 'sadd':
+        return [4, [[n, sp, _sadd_is_url(n)] for n, sp in case['stmts']]]
     h = case['helper']
     env, ov = _w_env(case['env']), _w_ov(case['ov'])
     if h == 'route':
@@ -1209,16 +1293,45 @@ def _clear_caches():
                 cc()
 
 
+def _warm_up_config(cfg, early, rest):
+    """URLs are generated (and asked for in vain) on a half-built configuration; the registrations that follow must
+    be seen by the next call: lookups are made at REQUEST time, nothing is remembered from an earlier answer"""
+    req = _impl['Request']({'wsgi.url_scheme': 'http', 'SERVER_NAME': 'warm', 'SERVER_PORT': '80', 'SCRIPT_NAME': '',
+                            'PATH_INFO': '/', 'REQUEST_METHOD': 'GET', 'QUERY_STRING': ''})
+    req.registry = cfg.registry
+    for kind, a, b in early + rest:
+        try:
+            if kind == 'r':
+                pp = parse_pattern(b)
+                kw = {nm: 'w' for nm, _l in pp['holes']}
+                if pp['star']:
+                    kw[pp['star']] = ('w',)
+                req.route_url(a, 'e', **kw)
+                req.route_path(a, **kw)
+            else:
+                sp = b if b.endswith('/') or b.endswith(':') else b + '/'
+                req.static_url(sp + 'w.css')
+                req.static_path(sp + 'w.css')
+        except Exception:
+            pass
+
+
 def _config(case):
     h = case['helper']
-    key = json.dumps([h, case.get('routes'), case.get('statics')], sort_keys=True)
+    late = case.get('late') or 0
+    key = json.dumps([h, case.get('routes'), case.get('statics'), late], sort_keys=True)
     cfg = _impl['cfg'].get(key)
     if cfg is None:
         cfg = _impl['Configurator'](autocommit=True)
-        for n, p in case.get('routes') or []:
-            cfg.add_route(n, p)
-        for name, spec in case.get('statics') or []:
-            cfg.add_static_view(name, spec)
+        items = [('r', n, p) for n, p in case.get('routes') or []] + [('s', n, sp) for n, sp in case.get('statics') or []]
+        early, rest = items[:len(items) - late], items[len(items) - late:]
+        for i, (kind, a, b) in enumerate(early + rest):
+            if late and i == len(early):
+                _warm_up_config(cfg, early, rest)
+            if kind == 'r':
+                cfg.add_route(a, b)
+            else:
+                cfg.add_static_view(a, b)
         if len(_impl['cfg']) > 300:
             _impl['cfg'].clear()
         _impl['cfg'][key] = cfg
@@ -1346,6 +1459,20 @@ def run_impl(case):
             return [0, urljoin(case['base'], case['ref'])]
         except ValueError:
             return [1, 4]
+    if k == 'sadd':
+        from pyramid.interfaces import IStaticURLInfo
+        cfg = _impl['Configurator'](autocommit=True)
+        for n, sp in case['stmts']:
+            cfg.add_static_view(n, sp)
+        info = cfg.registry.queryUtility(IStaticURLInfo)
+        mapper = cfg.get_routes_mapper()
+        regs = [[[u] if u is not None else [], sp, [rn] if rn is not None else []] for u, sp, rn in info.registrations]
+        pats = []
+        for n, sp in case['stmts']:
+            if _sadd_is_url(n) == 0:
+                r = mapper.get_route('__' + (n if n.endswith('/') else n + '/'))
+                pats.append(r.pattern if r is not None else None)
+        return [regs, pats]
     if k == 'dec':
         from urllib.parse import urlsplit, parse_qsl, unquote
         try:
@@ -1435,8 +1562,128 @@ def run_impl(case):
                 return kw
             ref = _call(lambda: req.route_url(name, *els, **merged()))
             if ref != u:
-                rel = [ref]
+                rel = ['current_route_url differs from route_url(<current route>, **{**matchdict, **keywords})', ref]
+    if not rel and u[0] == 0:
+        rel = _path_relations(case, req, cfg, h, ov, els, u[1])
     return [u, p, py_decode(u[1]) if u[0] == 0 else [], sorted(changed), rel]
+
+
+def _ptext(v):
+    """the text a supplied value stands for (python side of Coq's spec_text)"""
+    if v[0] == 'b':
+        return bytes(v[1]).decode('utf-8')
+    return str(_py_pval(v))
+
+
+def _route_part(case, U):
+    """what follows scheme://authority (or _app_url) and the script name, up to the query / fragment; None: not applicable"""
+    from urllib.parse import urlsplit
+    ov = case['ov']
+    name = case.get('route_name') if case['helper'] == 'route' else (case.get('cur_route_name') or case.get('matched'))
+    pat = dict((n, pp) for n, pp in case.get('routes') or []).get(name) if case['helper'] in ('route', 'current') else None
+    external = pat is not None and ext_parts(pat) is not None
+    if ov['app_url'] is not None and not external:
+        if not U.startswith(ov['app_url']):
+            return None
+        rest = U[len(ov['app_url']):]
+    else:
+        try:
+            sp = urlsplit(U)
+        except ValueError:
+            return None
+        A = sp.scheme + '://' + sp.netloc
+        if not sp.scheme or '[' in sp.netloc or not U.startswith(A):
+            return None
+        rest = U[len(A):]
+        if not external:
+            k = _script_prefix(rest, case['env']['script_name'])
+            if k is None:
+                return None
+            rest = rest[k:]
+    for ch in '?#':
+        rest = rest.split(ch, 1)[0]
+    return rest
+
+
+def _expected_path_text(case):
+    """the route's path, percent-decoded, reads: literal, value, literal, .., star value (python side of Coq's
+    c17_spec_path_text); None: not applicable"""
+    h = case['helper']
+    if h == 'route':
+        name, kw = case['route_name'], list(case['kw'])
+    elif h == 'current':
+        name = case['cur_route_name'] or case['matched']
+        kw = dict((k, v) for k, v in case['matchdict'])
+        kw.update(dict((k, v) for k, v in case['kw']))
+        kw = list(kw.items())
+    elif h == 'static':
+        r, sub = _static_hit(case)
+        if r is None or r[3] is not None:
+            return None
+        pp = parse_pattern(r[2])
+        kw = dict((k, v) for k, v in case['kw'])
+        kw['subpath'] = ['v', ['s', sub]]
+        kw, name = list(kw.items()), None
+    else:
+        return None
+    if h != 'static':
+        pat = dict((n, p_) for n, p_ in case['routes']).get(name)
+        if pat is None:
+            return None
+        pp = parse_pattern(pat)
+    kw = dict(kw)
+
+    def text(key, is_star):
+        v = kw[key]
+        if v[0] == 'v':
+            return _ptext(v[1])
+        if is_star:
+            return '/'.join(_ptext(x) for x in v[1])
+        return str(_py_seq(v[2], [_py_pval(x) for x in v[1]]))
+    try:
+        out = pp['prefix']
+        for nm, lit in pp['holes']:
+            out += text(nm, nm == pp['star']) + lit
+        if pp['star']:
+            out += text(pp['star'], True)
+        return out
+    except (KeyError, UnicodeDecodeError):
+        return None
+
+
+def _path_relations(case, req, cfg, h, ov, els, U):
+    """two declarative relations the parsed-URL judge cannot see, observed on the implementation:
+    (1) the path of the URL with extra elements is the path of the same URL without them, one trailing empty segment
+        dropped, followed by exactly the supplied elements (an extra empty segment is an element nobody supplied);
+    (2) the route's part of the path, percent-decoded as a whole, reads literal, value, literal, .., star value for the
+        values the caller supplied (bytes are UTF-8 text, other objects str(v), a star sequence joined with '/')"""
+    if h == 'static' and (_static_hit(case)[0] or [0, 0, 0, 1])[3] is not None:
+        return []
+    base_url = U
+    if els:
+        ub, _pb = _observe(dict(case, elements=[]), req, cfg, h, ov, [])
+        if ub[0] != 0:
+            return ['the same call without the extra elements fails', ub]
+        base_url = ub[1]
+    rp, rb = _route_part(case, U), _route_part(case, base_url)
+    if rp is None or rb is None:
+        return []
+    if els:
+        try:
+            want = [_ptext(x) for x in case['elements']]
+        except UnicodeDecodeError:
+            return []
+        base = rb.split('/')
+        if base and base[-1] == '':
+            base = base[:-1]
+        got = [_unq(x) for x in rp.split('/')]
+        exp = [_unq(x) for x in base] + want
+        if got != exp:
+            return ['path segments with the extra elements are %r, without them %r + the elements %r' % (got, base, want)]
+    exp = _expected_path_text(case)
+    if exp is not None and _unq(rb) != exp:
+        return ['the route part of the path decodes to %r, the pattern filled with the supplied values reads %r' % (_unq(rb), exp)]
+    return []
 
 
 def _observe(case, req, cfg, h, ov, els):
@@ -1580,7 +1827,7 @@ def judge_gen(case, obs, spec):
     if len(obs) > 3 and obs[3]:
         return False, 'the call changed its inputs: %s' % obs[3], 'url'
     if len(obs) > 4 and obs[4]:
-        return False, 'current_route_url differs from route_url(<current route>, **{**matchdict, **keywords}): %s' % (obs[4],), 'url'
+        return False, '%s' % (obs[4],), 'url'
     if u[0] != 0:
         if must == 1:
             return False, 'no URL produced (%s) although the route exists, every placeholder has a value and every ' \
@@ -1775,6 +2022,8 @@ def kinds(case, obs):
         out.append('via-module-functions')
     if case.get('pre_calls'):
         out.append('call-history')
+    if case.get('late'):
+        out.append('late-registration')
     blob = json.dumps([case.get('elements'), case.get('kw'), ov['query'], ov['anchor']])
     if '["x", ' in blob:
         out.append('value-other-object')
